@@ -107,6 +107,8 @@ def call_closure(F, clo, args):
 
 def apply_model(F, c, a, where):
     n = _last(c)
+    if c.endswith("hint::black_box") and len(a) == 1:
+        return a[0]
     if re.search(r"std::path::Path::file_stem$", c):
         return path_file_stem(a[0])
     if re.search(r"std::path::Path::file_name$", c):
